@@ -147,6 +147,25 @@ def canary(ctx, c, real, spec):
     return "canary: all %d obligations of %s discharge against a deliberately wrong spec (every result / stored value replaced)" % (len(ls.obs), c.qual)
 
 
+def rename_params(fdef, old, new):
+    """the function with its parameters renamed (positions kept); None if a new name is already used for something else in the body"""
+    import copy as _copy
+    m = {o: n for o, n in zip(old, new) if o != n}
+    used = {x.id for x in ast.walk(fdef) if isinstance(x, ast.Name)} | {a.arg for a in fdef.args.kwonlyargs} | \
+        ({fdef.args.vararg.arg} if fdef.args.vararg else set()) | ({fdef.args.kwarg.arg} if fdef.args.kwarg else set())
+    if any(n in used and n not in m for n in m.values()) or any(isinstance(x, (ast.Lambda, ast.FunctionDef)) and x is not fdef for x in ast.walk(fdef)):
+        return None
+    f = _copy.deepcopy(fdef)
+    for a in f.args.args:
+        a.arg = m.get(a.arg, a.arg)
+    for x in ast.walk(f):
+        if isinstance(x, ast.Name) and x.id in m:
+            x.id = m[x.id]
+        if isinstance(x, ast.keyword) and False:
+            pass
+    return f
+
+
 def verify_function(ctx, c, section, only_prop):
     sc = c.sidecar
     ctx.cur_globals = sc.globals
@@ -158,8 +177,18 @@ def verify_function(ctx, c, section, only_prop):
         return
     rparams = [a.arg for a in real.args.args]
     if rparams != c.params:
-        section["errors"].append("parameters of %s are %s but the contract says %s" % (c.qual, rparams, c.params))
-        return
+        renamed = rename_params(real, rparams, c.params) if len(rparams) == len(c.params) else None
+        if renamed is None:
+            # a changed signature (a parameter added, removed or reordered) is outside what the contract speaks about: nobody decides this function
+            section["functions"].append({"qualname": "%s:%s" % (sc.module, c.qual), "file": path, "sha256": C.sha256_file(path),
+                                         "lines": [real.lineno, real.end_lineno], "dropped": dropped(real), "contract_mode": c.mode, "props": c.props})
+            section["obligations"].append({"name": "%s/*" % c.name, "status": C.UNREACHABLE, "backend": "none", "time_s": 0,
+                                           "detail": "signature differs from the contract: parameters are %s, the contract says %s" % (rparams, c.params),
+                                           "props": c.props, "witness_families": c.d.get("families", [])})
+            return
+        section["notes"].append("%s: parameters renamed %s -> verified under the contract's names %s (callers passing them by keyword would notice)"
+                                % (c.name, rparams, c.params))
+        real = renamed
     section["functions"].append({"qualname": "%s:%s" % (sc.module, c.qual), "file": path, "sha256": C.sha256_file(path),
                                  "lines": [real.lineno, real.end_lineno], "dropped": dropped(real), "contract_mode": c.mode, "props": c.props})
     # modular reasoning assumes the function depends on the declared state only: module-level mutable objects it touches must be declared
